@@ -67,7 +67,7 @@ def main(ctx):
 
     def w_run():
         return recipe.tlc_only('conn-wide', 'Conn', constants=tla(wide), invariants=INV,
-                               properties=PROPS, workers=8, timeout=2400, heap='6g')
+                               properties=PROPS, workers=8, timeout=1800, heap='6g', budget_ok=True)
 
     def k_run():
         return recipe.tlc_only('conn-walks', 'Conn', constants=tla(walks), invariants=INV,
